@@ -178,6 +178,54 @@ pub fn spok_bundle<C: Cs>(ctx: &Ctx, st: &Setup<C>, r: &mut impl rand::RngCore, 
     })
 }
 
+/// presentation proofs made under a commitment key the VERIFIER chose badly: same h and bases, but a modulus that is far
+/// longer than the suite's (N^2, N * 2^700 + 1). (A much SHORTER modulus makes the honest prover's randomness-splitting loop in
+/// the range proof spin forever - a denial of service on the prover that is outside C17/C19 and is not exercised.) The prover is honest; what it sends must still
+/// hide its secrets (nothing the verifier supplies may size the prover's randomness below what the blindings cover).
+pub fn hostile_key_bundles<C: Cs>(ctx: &Ctx, st: &Setup<C>, r: &mut impl rand::RngCore, n: usize) -> Vec<Bundle> {
+    let mut v = vec![];
+    let nn = &st.cpk.N;
+    let moduli: Vec<(&str, Integer)> = vec![
+        ("N^2", Integer::from(nn * nn)),
+        ("N*2^700+1", Integer::from(nn << 700u32) + 1u32),
+    ];
+    for (mn, m) in moduli {
+        let u: Vec<usize> = (0..n).filter(|i| i % 2 == 0).collect();
+        let bases = st.bases_n(n);
+        let cpk = zkryptium::cl03::keys::CL03CommitmentPublicKey { N: m.clone(), h: Integer::from(&st.cpk.h % &m), g_bases: st.cpk.g_bases[..n].iter().map(|g| Integer::from(g % &m)).collect() };
+        let msgs = attributes::<C>(r, n, 0);
+        let sig = Signature::<CL03<C>>::sign_multiattr(st.pk(), st.sk(), &bases, &msgs);
+        let label = format!("{}/spok/n{}/U={:?}/commitment-key-modulus={}", C::NAME, n, u, mn);
+        let Some(p) = ctx.call("PoKSignature::proof_gen", &label, None, || Ok::<_, ()>(PoKSignature::<CL03<C>>::proof_gen(sig.cl03Signature(), &cpk, st.pk(), &bases, &msgs, &u))).value else {
+            ctx.count("proof_gen_refused_hostile_commitment_key", 1);
+            continue;
+        };
+        let sj = serde_json::to_value(&sig).unwrap();
+        let sl = leaves(&sj);
+        let get = |k: &str| sl.iter().find(|(p, _)| p.ends_with(k)).unwrap().1.clone();
+        let (e, s_) = (get("/e"), get("/s"));
+        let mut secrets: Vec<(String, Integer)> = u.iter().map(|&i| ("hidden-attribute".to_string(), msgs[i].value.clone())).collect();
+        secrets.push(("signature-exponent-e".into(), e));
+        secrets.push(("signature-s".into(), s_));
+        let mut base_pairs: Vec<(String, Integer, Integer)> = (0..n).map(|i| (format!("(g_{i},h)"), cpk.g_bases[i].clone(), cpk.h.clone())).collect();
+        base_pairs.extend((0..n).map(|i| (format!("(a_{i},b)"), bases.0[i].clone(), st.pk().b.clone())));
+        v.push(Bundle {
+            kind: "spok",
+            label,
+            json: serde_json::to_value(&p).unwrap(),
+            n_mod: st.pk().N.clone(),
+            secrets,
+            hidden: u.iter().map(|&i| (i, msgs[i].value.clone())).collect(),
+            base_pairs,
+            derived: vec![],
+            public_values: vec![],
+            ranges: vec![],
+            range_bases: vec![],
+        });
+    }
+    v
+}
+
 /// large attribute counts with a few hidden positions (position-dependent code paths)
 pub fn large_bundles<C: Cs>(ctx: &Ctx, r: &mut impl rand::RngCore, shapes: &[(usize, Vec<usize>)]) -> Vec<Bundle> {
     let mut v = vec![];
